@@ -16,7 +16,8 @@ TECHNIQUE = "def-use and order-preservation analysis of the rate-expression list
 CLAIM = ("Decides: every definition of the per-reaction rate list is an order-preserving map over the reactions and is what dydt and "
          "reaction_rates consume; dependent-variable names, symbols and expressions iterate rsys.substances in one order; the two closures "
          "perform the same ordered writes to `variables`; parameter names and units pick the same include_params arm; unique keys are "
-         "registered with their own argument index; both builders hand the composition vectors to linear_invariants.")
+         "registered with their own argument index; both builders hand the composition vectors to linear_invariants."
+         ' Configuration switches of both builders select the intended arms (R6). Shared rule A1: no swapped same-named arguments at resolved in-package call sites.')
 DOES_NOT_DECIDE = "the symbolic identity RHS = N^T r (translation validation, another technique family); pyodesys internals"
 ASSUMPTIONS = ["pyodesys SymbolicSys.from_callback(dep_by_name, par_by_name) pairs names with values as documented"]
 
